@@ -27,6 +27,9 @@ func profC07(t *tape.Tape) model.Profile {
 		TopNodes: [2]int{1, 4}, Augments: [2]int{1, 10}, Deviations: [2]int{0, 0}, Depth: 3,
 		Invalid: []string{model.InvAugMissing, model.InvAugLeaf, model.InvAugCollision, model.InvAugCollisionOwn, model.InvDupUses}, InvalidPct: 8, MaxInvalid: 1,
 		OrderTraps: true, Extras: t.Chance(1, 2),
+		// at most one augment per scenario whose path runs through an implicit
+		// case (it finds its target only after implicit-case insertion)
+		LateAugments: t.Sub("late").Chance(1, 4),
 	}
 	if t.Chance(3, 5) {
 		p.MaxInvalid = 0
